@@ -158,6 +158,7 @@ type valCase struct {
 	JTree *osmdoc.JNode   `json:"jtree"`
 	Unk   string          `json:"unk"`
 	Reps  int             `json:"reps"` // decode the text this many times in the same goroutine (0 = once)
+	Pre   []*osmdoc.JNode `json:"pre"`  // documents decoded (result discarded) before every repetition, same goroutine
 	Raw   json.RawMessage `json:"-"`
 }
 
@@ -276,8 +277,28 @@ func runC05(i int, line []byte) (res interface{}) {
 	if reps < 1 {
 		reps = 1
 	}
+	// the preceding documents: printed once, decoded before each repetition; only whether they were accepted is recorded
+	var preTexts [][]byte
+	for k, t := range c.Pre {
+		l := &osmdoc.JLayout{R: rand.New(rand.NewSource(*seed*1000003 + int64(i)*31 + int64(k) + 1)), UnkKey: c.Unk}
+		var b bytes.Buffer
+		vio.Must(l.Print(&b, syms, t), "print preceding json tree")
+		if !json.Valid(b.Bytes()) {
+			vio.Must(fmt.Errorf("printer produced invalid JSON: %s", b.Bytes()), "print preceding json tree")
+		}
+		preTexts = append(preTexts, b.Bytes())
+	}
+	pres := []interface{}{}
 	uns := []interface{}{}
 	for k := 0; k < reps; k++ {
+		for _, pt := range preTexts {
+			pv, err := newValue(c.Root)
+			vio.Must(err, "root")
+			perr := safeUnmarshal(pt, pv.Interface())
+			if k == 0 {
+				pres = append(pres, errText(perr))
+			}
+		}
 		back, err := newValue(c.Root)
 		vio.Must(err, "root")
 		uerr := safeUnmarshal(text, back.Interface())
@@ -287,6 +308,7 @@ func runC05(i int, line []byte) (res interface{}) {
 		uns = append(uns, syms.Read(back.Elem()))
 	}
 	got["un"] = uns
+	got["pre"] = pres
 	if *dump {
 		got["text"] = string(text)
 	}
